@@ -1607,6 +1607,11 @@ fn mjson(cx: &mut Ctx, ops: &[JOp], what: &str) {
         });
         (snap, el, j, file)
     });
+    // `T` (= "this member is the built-in execution-time entry") is only decided when both stamps are set: without them
+    // to_json() inserts no such entry, and a USER metric registered under that name with the built-in description and an
+    // integer value is indistinguishable from it by content (a false alarm seen once: seed 7, ops `ru:execution_time_ms:
+    // u2163:<built-in description>;en`).
+    let stamps_set = ops.iter().any(|o| matches!(o, JOp::St)) && ops.iter().any(|o| matches!(o, JOp::En));
     let render_doc = |j: &JV| -> String {
         let empty = serde_json::Map::new();
         let obj = j.as_object().unwrap_or(&empty);
@@ -1615,7 +1620,7 @@ fn mjson(cx: &mut Ctx, ops: &[JOp], what: &str) {
             .map(|(k, e)| {
                 let v = e.get("value").cloned().unwrap_or(JV::String("<no value member>".into()));
                 let d = e.get("description").and_then(|d| d.as_str());
-                let shown = if k == EXEC_KEY && is_exec_entry(e) { "T".to_string() } else { val_tok(&v) };
+                let shown = if k == EXEC_KEY && stamps_set && is_exec_entry(e) { "T".to_string() } else { val_tok(&v) };
                 format!("{}={}~{}", name_hex(k), shown, desc_tok(d))
             })
             .collect();
